@@ -161,7 +161,18 @@ def ax_misc(doc):
     doc["header"]["TITLE"] = "a b c"
 
 
+def ax_text(title, wavname):
+    def f(doc):
+        doc["header"]["TITLE"] = title
+        doc["header"]["ARTIST"] = title[::-1].strip() or "a"
+        if wavname:
+            doc["wav"]["01"] = wavname
+    return f
+
+
 AXES = [
+    # header text: ASCII characters whose Shift-JIS variants differ ('~' and '\\'), kana/kanji, a second byte 0x5C (ソ, 表)
+    ("text", [("tilde-backslash", ax_text("x ~mix~ \\ y", "se\\kick~1.wav")), ("kana-kanji", ax_text("日本語 テスト", "音.wav")), ("second-byte-5c", ax_text("ソ表 x", ""))]),
     ("layout", [(n, ax_layout(n)) for n in ("BMS", "PMS", "PMS_BME", "PMS_5B")]),
     ("bpm", [("90.5", ax_bpm("90.5"))]),
     ("measure", [(str(m), ax_measure(m)) for m in (1, 2, 5)]),
@@ -416,8 +427,8 @@ def check_doc(doc, lab, case, ctx, nontrivial=True, key=None):
         ctx.check("raises", False, site=dict(site, exc=type(e).__name__), case=case, observed=f"{type(e).__name__}: {e}"[:300], expected="a chart")
         return
     ctx.passed("raises")
-    got_h = sorted((int(c), float(t), (s.decode("shift_jis") if isinstance(s, bytes) else str(s))) for t, c, s in zip(m.hits.offset.tolist(), m.hits.column.tolist(), m.hits.sample.tolist()))
-    got_l = sorted((int(c), float(t), float(l), (s.decode("shift_jis") if isinstance(s, bytes) else str(s))) for t, c, l, s in zip(m.holds.offset.tolist(), m.holds.column.tolist(), m.holds.length.tolist(), m.holds.sample.tolist()))
+    got_h = sorted((int(c), float(t), (s.decode("shift_jis", errors="backslashreplace") if isinstance(s, bytes) else str(s))) for t, c, s in zip(m.hits.offset.tolist(), m.hits.column.tolist(), m.hits.sample.tolist()))
+    got_l = sorted((int(c), float(t), float(l), (s.decode("shift_jis", errors="backslashreplace") if isinstance(s, bytes) else str(s))) for t, c, l, s in zip(m.holds.offset.tolist(), m.holds.column.tolist(), m.holds.length.tolist(), m.holds.sample.tolist()))
     exp_h = [(c, float(t), w) for c, t, w in hits]
     exp_l = [(c, float(t), float(l), w) for c, t, l, w in holds]
     ctx.outcome((tuple((c, round(t, 4)) for c, t, _ in got_h), tuple((c, round(t, 4), round(l, 4)) for c, t, l, _ in got_l)))
@@ -438,7 +449,7 @@ def check_doc(doc, lab, case, ctx, nontrivial=True, key=None):
         ctx.check("sample", not bads, site=site, case=case, observed=[a for a, _ in bads][:4], expected=[b for _, b in bads][:4])
 
     def tx(v):
-        return v.decode("shift_jis") if isinstance(v, bytes) else str(v)
+        return v.decode("shift_jis", errors="backslashreplace") if isinstance(v, bytes) else str(v)
 
     hdr = dict(title=tx(m.title), artist=tx(m.artist), level=tx(m.version), bpm0=float(m.bpms.bpm.tolist()[0]) if len(m.bpms) else None)
     exp_hdr = dict(title=doc["header"]["TITLE"], artist=doc["header"]["ARTIST"], level=doc["header"]["PLAYLEVEL"])
